@@ -22,6 +22,7 @@ def run(ctx):
         ctx.compare_stream('normalize-model', d + '/normalize.cases', d + '/normalize.impl', d + '/normalize.model',
                            nontrivial=lambda c, i: len(i) > 10, concrete=False)
     ctx.oracle_stream('normalize-lines-up', d + '/c11.verdicts', d + '/c11.cases')
+    ctx.oracle_stream('normalize-results-are-values', d + '/c11h.verdicts', d + '/c11h.cases')
     # the theorem C11_restricted predicts the oracle's verdict wherever its two boolean hypotheses hold: evaluate
     # them (extracted NormProof.flushes_ok / canon_resid, on the dumped tables) on every license-bearing input
     if ue:
